@@ -1896,6 +1896,20 @@ def _uncovered_inputs(fa, value, key, at, anchor=None):
 
     bad = []
     subjects = set()
+    # state of the object the method belongs to: `self.a.b` read for the value is determined by the key when the key contains
+    # `self`, `self.a` or `self.a.b` itself
+    key_chains = {A.dotted(m) for (m, _am) in skd.values() if isinstance(m, ast.Attribute) and A.dotted(m) and not (isinstance(pm.get(m), ast.Attribute) and pm.get(m).value is m)}
+    key_self = any(m.id == "self" for (m, _am) in whole_in_key)
+    for (n, a_) in sv.values():
+        if isinstance(n, ast.Attribute) and isinstance(n.ctx, ast.Load) and (A.dotted(n) or "").startswith("self.") and "self" in fa.fi.params:
+            par = pm.get(n)
+            if (isinstance(par, ast.Attribute) and par.value is n) or (isinstance(par, ast.Call) and par.func is n):
+                continue
+            chain = A.dotted(n)
+            parts = chain.split(".")
+            if id(n) in sk or key_self or any(".".join(parts[:k_]) in key_chains for k_ in range(2, len(parts) + 1)):
+                continue
+            bad.append(("`%s`" % chain, n))
     for (n, a_) in sv.values():
         acc = _access(n)
         if acc is not None:
@@ -4722,7 +4736,13 @@ def check_graph_nodes_from_own_rules(ck, R):
     ck.need(bool(rec), "generate_graph: no recursive call found (the graph is expected to be built by descending into each dependency)")
     params = [p_ for p_ in g.fi.params if p_ not in ("self", "cls")]
     GQ = "dependency_graph.DependencyGraph.generate_graph"
-    fn_params = [p_ for p_ in params if all(_call_arg(ck, c, GQ, p_) is not None and g.xnorm(_call_arg(ck, c, GQ, p_), g.nodes(c)[0]).endswith(".memento_fn") for c in rec)]
+    def fn_of_a_rule(e, at):
+        """`<rule>.memento_fn` / getattr(<rule>, 'memento_fn'[, default]), through temporaries"""
+        ex = g.expand(e, at)
+        return (isinstance(ex, ast.Attribute) and ex.attr == "memento_fn") or \
+            (isinstance(ex, ast.Call) and isinstance(ex.func, ast.Name) and ex.func.id == "getattr" and len(ex.args) >= 2 and A.const_str(ex.args[1]) == "memento_fn")
+
+    fn_params = [p_ for p_ in params if all(_call_arg(ck, c, GQ, p_) is not None and fn_of_a_rule(_call_arg(ck, c, GQ, p_), g.nodes(c)[0]) for c in rec)]
     ck.need(len(fn_params) == 1, "generate_graph: expected one parameter that the recursive calls bind to `<rule>.memento_fn` (the function of the sub-graph), found %d" % len(fn_params))
     P = fn_params[0]
     vo = _ValueOrigins(ck, cls)
